@@ -114,7 +114,9 @@ fn precompute_problem(
     let max_num_skipped_x = skippable_participants.iter().filter(|x| **x).count();
     // Calculate adjacency matrix size to allocate 1D-Arrays
     let m = courses.iter().map(|c| c.num_max).sum();
-    let n = m + max_num_skipped_x;
+    // The matrix needs a row for every participant, even if there are fewer course places than
+    // participants (such problems are reported as unsolvable by the branch and bound nodes).
+    let n = std::cmp::max(m + max_num_skipped_x, participants.len());
 
     // Generate course_map, inverse_course_map and madatory_y from course list
     let mut course_map = ndarray::Array1::<usize>::zeros([m]);
